@@ -33,6 +33,7 @@ fn main() {
             exit(check(&cfg));
         }
         "replay" => exit(replay(&args[2])),
+        "fuzz-artifact" => exit(fuzz_artifact(&args[2], args.get(3).map(|s| s.as_str()).unwrap_or(""), args.get(4).map(|s| s.as_str()))),
         _ => usage(),
     }
 }
@@ -115,6 +116,20 @@ fn check(cfg: &RunCfg) -> i32 {
         eprintln!("INCONCLUSIVE property={}: {}", cfg.id, e);
         return 2;
     }
+    // libFuzzer campaign summary of this run (thorough tier), produced by fuzz/campaign.py
+    if let Ok(path) = std::env::var("VERIF_FUZZ_SUMMARY") {
+        if let Ok(text) = std::fs::read_to_string(&path) {
+            if let Ok(v) = serde_json::from_str::<Value>(&text) {
+                let execs: u64 = v["campaigns"].as_array().map(|a| a.iter().map(|c| c["executions"].as_u64().unwrap_or(0)).sum()).unwrap_or(0);
+                stats.add("libfuzzer/executions", execs);
+                if let Some(o) = extra.as_object_mut() {
+                    o.insert("libfuzzer".into(), v);
+                } else {
+                    extra = json!({"libfuzzer": v});
+                }
+            }
+        }
+    }
     let info = EvidenceInfo { rule: &special::rule(&cfg.id), assumptions: special::assumptions(&cfg.id), exhaustive, extra };
     write_evidence(cfg, &stats, &info, t0.elapsed().as_secs_f64(), 0);
     println!(
@@ -164,3 +179,38 @@ fn replay(path: &str) -> i32 {
 
 #[allow(dead_code)]
 fn _keep() {}
+
+/// Re-checks a libFuzzer artifact in the ordinary (non-fuzz) build with the same decoder the target
+/// uses; on failure writes a plain-data replay file and prints the VIOLATION line.
+fn fuzz_artifact(target: &str, path: &str, only: Option<&str>) -> i32 {
+    use arimaa_verif::fuzzdec;
+    let data = match std::fs::read(path) {
+        Ok(d) => d,
+        Err(e) => {
+            eprintln!("INCONCLUSIVE: cannot read {}: {}", path, e);
+            return 2;
+        }
+    };
+    let r = match target {
+        "parse_board" => fuzzdec::board_target(&data),
+        "parse_action" => fuzzdec::action_target(&data),
+        "game" => fuzzdec::game_target(&data, only.filter(|s| !s.is_empty())),
+        _ => {
+            eprintln!("unknown target {}", target);
+            return 2;
+        }
+    };
+    match r {
+        Ok(()) => {
+            println!("artifact {} does not reproduce in the checked (non-fuzz) build", path);
+            0
+        }
+        Err(e) => {
+            let id = e.replay["property"].as_str().unwrap_or("?").to_string();
+            let p = write_replay(&id, &e.replay);
+            println!("{}: {}", e.fail.clause, e.fail.detail);
+            println!("VIOLATION property={} replay={}", id, p.display());
+            1
+        }
+    }
+}
